@@ -9,6 +9,8 @@ import (
 	seccomp "github.com/elastic/go-seccomp-bpf"
 )
 
+func init() { commands["compile"] = cmdCompile }
+
 // parsePolicy reads: default ngroups {action nnames name... nnwc {name nconds {arg op val}...}...}
 func parsePolicy(t *toks) *seccomp.Policy {
 	p := &seccomp.Policy{DefaultAction: seccomp.Action(uint32(t.u64()))}
